@@ -6,7 +6,9 @@
    per-attempt answers of the environment (unreachable / reachable+hooks accept / hook rejects). *)
 From Coq Require Import Strings.String Strings.Byte.
 From Coq Require Import List Arith NArith ZArith Bool Lia.
+From Verif Require Import Base.Bytes.
 From Verif Require Import Model.Redial Proofs.RedialProofs Proofs.RedialLiveProofs Proofs.RedialReaderProofs.
+From Verif Require Import Model.RedialMod Proofs.RedialModProofs Model.SockId Proofs.SockIdProofs.
 Import ListNotations.
 
 (* Calls in flight at the loss complete with connection-closed: when either cancel pass of the
@@ -179,6 +181,150 @@ Theorem C13_successful_redial_starts_reader : forall n uid p d s,
   reachable n uid p d s -> length (readers s) = S (okrounds s).
 Proof. exact readers_count_lemma. Qed.
 Print Assumptions C13_successful_redial_starts_reader.
+
+(* ---- dial hooks that replace the socket (Session.ModifySocket) ---------------------------
+   A PostDial plugin may replace the session's connection through ModifySocket on the first
+   dial and again on every redial (a wrapper conn; mixer/websocket's client plugin, whose conn
+   prints renamed addresses).  [reachable_m cfg ..]: the machine of Model.Redial with such a
+   plugin in front of or behind the plugin that gives the hook verdict (Model.RedialMod);
+   [m_inherit cfg = true] is ModifySocket as coded: id := s.ID(); socket.Reset; SetID(id). *)
+
+(* "keeping a user-assigned id" with such hooks, for every kind of replacement, either plugin
+   order, all event sequences: whenever the session is Ok the user's id is in place ... *)
+Theorem C13_modify_socket_hooks_keep_user_id : forall cfg n p d s,
+  m_inherit cfg = true -> reachable_m cfg n true p d s -> status_ s = SOk -> id s = IdUser.
+Proof. exact user_id_kept_with_modify_hooks. Qed.
+Print Assumptions C13_modify_socket_hooks_keep_user_id.
+
+(* ... and the step that completes a redial round (the hooks have accepted) leaves the session
+   Ok with the user-assigned id AND stored in the index under that very key. *)
+Theorem C13_successful_redial_keeps_user_id_and_index_key : forall cfg n p d s r v,
+  m_inherit cfg = true -> reachable_m cfg n true p d s ->
+  lock s = Some r -> r_pc r = RdHook v -> accepts v = true ->
+  let s' := step_m cfg s EvRound in
+  status_ s' = SOk /\ id s' = IdUser /\ idmem IdUser (index s') = true /\
+  okrounds s' = S (okrounds s) /\ lock s' = None.
+Proof. exact successful_round_keeps_user_id. Qed.
+Print Assumptions C13_successful_redial_keeps_user_id_and_index_key.
+
+(* The invariants proved above for the plain machine hold for the machine with the plugin -
+   with a user-assigned id for every kind of replacement, with an address-derived id for the
+   replacements that keep the addresses: status by phase, hooks re-run with isRedial = true and
+   accepting runs = successful redials, at most 1+n attempts per round, closeLocked in the
+   closure never runs, and the id (user's / current local address) whenever the session is Ok.
+   (The machine is NOT the plain one: ModifySocket puts another net.Conn object into the
+   socket, so a caller that captured the raw connection between socket.Reset and the plugin
+   does not redial again when it gets the lock - Model.RedialMod.restamp; the harness sees
+   exactly that.) *)
+Theorem C13_invariants_hold_with_modify_socket_hooks : forall cfg n uid p d s,
+  m_inherit cfg = true -> (uid = true \/ renames (m_kind cfg) = false) ->
+  reachable_m cfg n uid p d s ->
+  match lock s with
+  | None => status_unlocked (status_ s)
+  | Some r => match r_pc r with
+              | RdLocked => status_unlocked (status_ s)
+              | RdDial | RdReset _ => status_dialing (status_ s)
+              | RdHook _ => status_hooking (status_ s)
+              end
+  end /\
+  (Forall (fun h => fst h = true) (hooks s) /\
+   length (filter (fun h => accepts (snd h)) (hooks s)) = okrounds s + hook_pending (lock s) /\
+   okrounds s = length (filter (fun x => snd x) (rounds s))) /\
+  ((0 <= n)%Z -> Forall (fun x => (Z.of_nat (fst x) <= 1 + n)%Z) (rounds s) /\
+                 (forall r, lock s = Some r -> (Z.of_nat (r_att r) <= 1 + n)%Z \/ r_pc r = RdLocked)) /\
+  wedged s = false /\
+  (status_ s = SOk -> if uid then id s = IdUser else id s = IdAddr (conn s)).
+Proof. exact invariants_with_modify_hooks. Qed.
+Print Assumptions C13_invariants_hold_with_modify_socket_hooks.
+
+(* A plugin whose function returns (nil, nil) - ModifySocket's early return - or no plugin:
+   the plain machine, step for step. *)
+Theorem C13_modify_socket_without_replacement_is_invisible : forall cfg s e,
+  resets (m_kind cfg) = false -> step_m cfg s e = step s e.
+Proof. exact step_m_no_replacement. Qed.
+Print Assumptions C13_modify_socket_without_replacement_is_invisible.
+
+(* The variant of ModifySocket that reads the id AFTER socket.Reset (SetID(s.ID()) behind the
+   Reset): one loss, one redial with a wrapper-conn plugin, and the session is Ok under the
+   remote address; the user's id is gone from the session and from the index. *)
+Theorem C13_id_read_after_reset_refuted : exists cfg evs,
+  m_inherit cfg = false /\
+  let s := run_m cfg (init_m cfg 3 true [] VA) evs in
+  status_ s = SOk /\ rounds s = [(1, true)] /\ hooks s = [(true, VA)] /\ quiescent s = true /\
+  id s = IdNone /\ index s = [IdNone] /\ idmem IdUser (index s) = false.
+Proof. exact (ex_intro _ cfg_late (ex_intro _ w_late (conj eq_refl w_late_lemma))). Qed.
+Print Assumptions C13_id_read_after_reset_refuted.
+
+(* An address-derived id behind a conn that prints renamed addresses (websocket): the closure's
+   test oldIP == oldID never holds, the id given at the first dial is kept verbatim (it is not
+   refreshed as C13_address_id_refreshed says for plain connections). *)
+Theorem C13_renamed_address_id_kept_verbatim : forall cfg n p d s,
+  m_inherit cfg = true -> renames (m_kind cfg) = true -> reachable_m cfg n false p d s ->
+  id s = IdAddr 0 \/ (id s = IdNone /\ at_reset (lock s)).
+Proof. exact renamed_address_id_kept. Qed.
+Print Assumptions C13_renamed_address_id_kept_verbatim.
+
+(* The same on strings (Model.SockId: socket.ID / SetID / Reset, ModifySocket, the closure's
+   restore rule, the hub keys).  ModifySocket's contract, "inherit the previous session id": *)
+Theorem C13_modify_socket_inherits_id : forall k w,
+  sock_ID k <> [] -> sock_ID (modify_socket k w) = sock_ID k /\ k_conn (modify_socket k w) = wrap_conn w (k_conn k).
+Proof. exact modify_socket_contract. Qed.
+Print Assumptions C13_modify_socket_inherits_id.
+
+(* One redial round - any number of attempts, each unreachable or a fresh connection with any
+   list of hooks (replace by any conn / pass / refuse) - leaves a user-assigned id (non-empty,
+   not the local address) in place, and a successful round stores the session under it. *)
+Theorem C13_redial_round_keeps_user_id_string : forall u k h l,
+  u <> [] -> k_id k = u -> c_local (k_conn k) <> u ->
+  let '(k1, h1, ok) := redial_round modify_socket (k, h) l in
+  k_id k1 = u /\ sock_ID k1 = u /\
+  (k_conn k1 = k_conn k \/ In (k_conn k1) (flat_map attempt_conns l)) /\
+  (ok = true -> hub_has h1 u = true) /\ (ok = false -> h1 = h).
+Proof. exact redial_round_user_id. Qed.
+Print Assumptions C13_redial_round_keeps_user_id_string.
+
+(* ... and so does any sequence of losses and rounds, as long as no connection ever prints the
+   user's id as its local address. *)
+Theorem C13_life_keeps_user_id_string : forall u ops k h,
+  u <> [] -> k_id k = u -> c_local (k_conn k) <> u ->
+  (forall o c, In o ops -> In c (op_conns o) -> c_local c <> u) ->
+  let '(k1, _) := life modify_socket (k, h) ops in
+  k_id k1 = u /\ sock_ID k1 = u.
+Proof. exact life_user_id. Qed.
+Print Assumptions C13_life_keeps_user_id_string.
+
+(* The late-reading variant on strings: user id "user-1", one round, one transparent wrapper:
+   ID() is the remote address and the hub holds the session under it, not under "user-1". *)
+Theorem C13_id_read_after_reset_string_refuted : exists k l,
+  let '(k1, h1, ok) := redial_round modify_socket_late (k, []) l in
+  ok = true /\ sock_ID k = str "user-1" /\ c_local (k_conn k) <> str "user-1" /\
+  sock_ID k1 = str "127.0.0.1:9090" /\ hub_has h1 (str "user-1") = false /\
+  hub_has h1 (str "127.0.0.1:9090") = true.
+Proof. exact (ex_intro _ w_sock (ex_intro _ [AConn w_conn1 [HMod WPlain]] late_variant_loses_user_id)). Qed.
+Print Assumptions C13_id_read_after_reset_string_refuted.
+
+(* Address-derived ids on strings: refreshed behind transparent replacements; behind a renaming
+   one the first dial leaves an id that LocalAddr() no longer prints, i.e. one the closure will
+   treat as user-assigned (previous two theorems with u := that id). *)
+Theorem C13_address_id_strings :
+  (forall k c hs, k_id k = c_local (k_conn k) -> k_id k <> [] -> c_local c <> [] ->
+     forallb transparent hs = true ->
+     let k1 := fst (redial_attempt modify_socket (sock_ID k) (c_local (k_conn k)) k c hs) in
+     k_id k1 = c_local c /\ k_conn k1 = c) /\
+  (forall k c t, t <> [] -> c_local c <> [] ->
+     let k0 := fst (first_dial modify_socket k c [HMod (WRename t)]) in
+     k_id k0 = c_local c /\ c_local (k_conn k0) <> k_id k0).
+Proof. exact (conj address_id_refreshed first_dial_renamed). Qed.
+Print Assumptions C13_address_id_strings.
+
+(* Non-vacuity of the hypotheses above: a websocket-like plugin, user id, loss, redial. *)
+Example C13_modify_example :
+  let cfg := mkMod MRename false true in
+  let s := run_m cfg (init_m cfg 3 true [] VA)
+               [EvCut; EvReader 0; EvReader 0; EvReader 0; EvReader 0; EvReader 0; EvReader 0; EvReader 0;
+                EvAcquire (OwR 0); EvRound; EvRound; EvRound] in
+  (exists r, lock s = Some r /\ r_pc r = RdHook VA) /\ id s = IdUser /\ status_ s = SPreparing.
+Proof. vm_compute. split; [eexists; split; reflexivity | split; reflexivity]. Qed.
 
 (* Non-vacuity: a plain loss followed by a reader-triggered redial on the second attempt. *)
 Example C13_example :
